@@ -431,9 +431,9 @@ func (u *Unit) heapDefault(st *State, name, valSort string) string {
 		ep = "0"
 	}
 	c := u.d.constant(name+"@"+ep, arrSort(SInt, u.eng.heapSorts[name]))
-	if ep == "0" && u.eng.heapIsRef[name] {
-		// well-formed entry heap: every reference stored in an object field points to an existing object
-		u.d.axiom(fmt.Sprintf("(forall ((r Int)) (! (<= (select %s r) |wm@0|) :pattern ((select %s r))))", c, c))
+	if ep == "0" {
+		u.d.entryHeaps[name] = c
+		u.d.isRef = u.eng.heapIsRef
 	}
 	return c
 }
@@ -528,10 +528,17 @@ func (u *Unit) loadField(st *State, ref string, t types.Type, name string) *Val 
 	if kindOf(ft) == kRef {
 		u.eng.heapIsRef[heapName(t, name)] = true
 	}
+	if _, _, isX := xsyncMapTypes(ft); isX && kindOf(ft) == kStruct {
+		u.eng.heapIsRef["neg:"+heapName(t, name)] = true
+	}
 	h := u.heapGet(st, heapName(t, name), sortOf(ft))
 	v := u.fromScalar(st, app("select", h, ref), ft)
 	if kindOf(ft) == kRef {
 		st.assumeFact(app("<=", v.S, st.wm))
+	}
+	if _, _, isX := xsyncMapTypes(ft); isX && kindOf(ft) == kStruct {
+		// an xsync.Map embedded by value: its identity (box id) lives below zero, apart from every allocated map
+		st.assumeFact(app("<", v.S, "0"))
 	}
 	return v
 }
@@ -542,6 +549,9 @@ func (u *Unit) storeField(st *State, ref string, t types.Type, name string, v *V
 		return
 	}
 	hn := heapName(t, name)
+	if kindOf(ft) == kRef {
+		u.eng.heapIsRef[hn] = true
+	}
 	h := u.heapGet(st, hn, sortOf(ft))
 	u.heapSet(st, hn, sortOf(ft), app("store", h, ref, u.scalar(st, v)))
 }
